@@ -41,6 +41,12 @@ ASSUMPTIONS = ['_RangeIterator read-ahead size is >= 1 (max_batch_size >= 1).',
 def run(ctx: Ctx):
   for r in (r1, r2, r3, r4, r6, r7, r8, r9, r10):
     ctx.guard(r)
+  from mlmverif.props import c10
+  ctx.include('R-C09-11', '"rebuilding a shard from its recorded state yields the same'
+              ' elements": the start restored from a recorded position equals the'
+              ' captured position for every generation (R-C10-1 affine position'
+              ' relation: B + start_index\' == _index as a polynomial identity)', c10.r1,
+              min_instances=4)
 
 
 def r1(ctx: Ctx):
